@@ -228,4 +228,117 @@ theorem intersect_refines (pairs : List (K × K)) (r : K) :
       simp only [h1, h2, Option.bind_some] at hm
       simp [hm, countNonzero_map]
 
+/-! ## `Sholl.get` -/
+
+/-- the number of segments straddling `r` -/
+def count (pairs : List (K × K)) (r : K) : Int := (((pairs.filter fun p => straddle p.1 p.2 r).length : Nat) : Int)
+
+theorem mask_parts (pairs : List (K × K)) (r : K) :
+    ∃ a b, Py.Sh.logicalAnd (Py.Sh.leMask (pairs.map (·.1)) r) (Py.Sh.gtMask (pairs.map (·.2)) r) = some a ∧
+      Py.Sh.logicalAnd (Py.Sh.leMask (pairs.map (·.2)) r) (Py.Sh.gtMask (pairs.map (·.1)) r) = some b ∧
+      Py.Sh.logicalOr a b = some (pairs.map fun p => straddle p.1 p.2 r) := by
+  have hm := mask_eq pairs r
+  cases h1 : Py.Sh.logicalAnd (Py.Sh.leMask (pairs.map (·.1)) r) (Py.Sh.gtMask (pairs.map (·.2)) r) with
+  | none => simp [h1] at hm
+  | some a =>
+    cases h2 : Py.Sh.logicalAnd (Py.Sh.leMask (pairs.map (·.2)) r) (Py.Sh.gtMask (pairs.map (·.1)) r) with
+    | none => simp [h1, h2] at hm
+    | some b =>
+      simp only [h1, h2, Option.bind_some] at hm
+      exact ⟨a, b, rfl, rfl, hm⟩
+
+theorem countRows (pairs : List (K × K)) (radii : List K) (hne : radii ≠ []) :
+    Py.Sh.countNonzeroRows (radii.map fun r => pairs.map fun p => straddle p.1 p.2 r) = some (radii.map (count pairs)) := by
+  cases radii with
+  | nil => exact absurd rfl hne
+  | cons x xs =>
+    simp only [Py.Sh.countNonzeroRows, List.map_cons]
+    rw [if_pos (by simp)]
+    simp [countNonzero_map, count]
+
+theorem get_arr_loop (F : Py.Fld K) (pairs : List (K × K)) : ∀ (radii : List K) (v : sholl_get_arr.V K), v.rs = rows pairs →
+    ∃ r', Py.forEach (sholl_get_arr.for1 F) radii v =
+      .next { v with r := r', c0_ := v.c0_ ++ radii.map fun r => pairs.map fun p => straddle p.1 p.2 r } := by
+  intro radii
+  induction radii with
+  | nil => intro v _; exact ⟨v.r, by simp [Py.forEach]⟩
+  | cons x xs ih =>
+    intro v h
+    obtain ⟨a, b, ha, hb, hc⟩ := mask_parts pairs x
+    obtain ⟨r', hr⟩ := ih { v with r := x, c0_ := v.c0_ ++ [pairs.map fun p => straddle p.1 p.2 x] } h
+    refine ⟨r', ?_⟩
+    simp only [Py.forEach, sholl_get_arr.for1, h, col0, col1, Py.bind, ha, hb, hc]
+    simp only [h] at hr
+    rw [hr]; simp
+
+theorem get_int_loop (F : Py.Fld K) (pairs : List (K × K)) : ∀ (radii : List K) (v : sholl_get_int.V K), v.rs = rows pairs →
+    ∃ r', Py.forEach (sholl_get_int.for1 F) radii v =
+      .next { v with r := r', c0_ := v.c0_ ++ radii.map fun r => pairs.map fun p => straddle p.1 p.2 r } := by
+  intro radii
+  induction radii with
+  | nil => intro v _; exact ⟨v.r, by simp [Py.forEach]⟩
+  | cons x xs ih =>
+    intro v h
+    obtain ⟨a, b, ha, hb, hc⟩ := mask_parts pairs x
+    obtain ⟨r', hr⟩ := ih { v with r := x, c0_ := v.c0_ ++ [pairs.map fun p => straddle p.1 p.2 x] } h
+    refine ⟨r', ?_⟩
+    simp only [Py.forEach, sholl_get_int.for1, h, col0, col1, Py.bind, ha, hb, hc]
+    simp only [h] at hr
+    rw [hr]; simp
+
+theorem get_rs_self_arr_none (F : Py.Fld K) (rmax : K) (steps : List K) : sholl_get_rs_self_arr F rmax none steps = some steps := by
+  simp [sholl_get_rs_self_arr, sholl_get_rs_self_arr.body, sholl_get_rs_arr, sholl_get_rs_arr.body, Py.seq, Py.skip, Py.bind, Py.finish]
+
+/-- **`Sholl.get(steps=[r₀, r₁, …])` as translated is the list of the straddle counts at the given radii, in the given order**; an empty list
+of radii raises (numpy's `AxisError`: `np.count_nonzero([], axis=1)`) -/
+theorem get_arr_refines (F : Py.Fld K) (pairs : List (K × K)) (rmax : K) (steps : List K) :
+    sholl_get_arr F (rows pairs) rmax none steps = if steps = [] then none else some (steps.map (count pairs)) := by
+  obtain ⟨r', hr⟩ := get_arr_loop F pairs steps
+    ⟨rows pairs, rmax, none, steps, (default : sholl_get_arr.V K).intersections, (default : sholl_get_arr.V K).r, []⟩ rfl
+  simp only [sholl_get_arr, sholl_get_arr.body, Py.seq, Py.bindS, get_rs_self_arr_none, Py.bind, hr, List.nil_append]
+  by_cases hs : steps = []
+  · subst hs; simp [Py.Sh.countNonzeroRows, Py.finish]
+  · simp [countRows pairs steps hs, hs, Py.finish]
+
+/-- `get(steps)` is `intersect` at every radius -/
+theorem get_arr_eq_intersect (F : Py.Fld K) (pairs : List (K × K)) (rmax : K) (steps : List K) (hs : steps ≠ []) :
+    sholl_get_arr F (rows pairs) rmax none steps = steps.mapM (sholl_intersect (rows pairs)) := by
+  rw [get_arr_refines, if_neg hs]
+  have : ∀ l : List K, l.mapM (sholl_intersect (rows pairs)) = some (l.map (count pairs)) := by
+    intro l
+    induction l with
+    | nil => rfl
+    | cons x xs ih => simp [List.mapM_cons, ih, intersect_refines, count]
+  rw [this]
+
+/-- **`Sholl.get(steps=k)` (an integer, or the legacy `step`) as translated is `get` at the radii `_get_rs` computes** -/
+theorem get_int_refines (F : Py.Fld K) (pairs : List (K × K)) (rmax : K) (sstep : Option K) (k : Int) :
+    sholl_get_int F (rows pairs) rmax sstep k =
+      (sholl_get_rs_self_int F rmax sstep k).bind fun radii => if radii = [] then none else some (radii.map (count pairs)) := by
+  cases hrs : sholl_get_rs_self_int F rmax sstep k with
+  | none => simp [sholl_get_int, sholl_get_int.body, Py.seq, Py.bindS, hrs, Py.bind, Py.finish]
+  | some radii =>
+    obtain ⟨r', hr⟩ := get_int_loop F pairs radii
+      ⟨rows pairs, rmax, sstep, k, (default : sholl_get_int.V K).intersections, (default : sholl_get_int.V K).r, []⟩ rfl
+    simp only [sholl_get_int, sholl_get_int.body, Py.seq, Py.bindS, hrs, Py.bind, hr, List.nil_append, Option.bind_some]
+    by_cases hs : radii = []
+    · subst hs; simp [Py.Sh.countNonzeroRows, Py.finish]
+    · simp [countRows pairs radii hs, hs, Py.finish]
+
+/-- the radii of an integer step count: `s = rmax / (k + 1)`, then `np.arange(s, rmax, s)`; of the legacy `step`: `np.arange(step, ceil(rmax), step)` -/
+theorem get_rs_self_int_eq (F : Py.Fld K) (rmax : K) (sstep : Option K) (k : Int) :
+    sholl_get_rs_self_int F rmax sstep k = match sstep with
+      | some st => Py.Sh.arange st (Py.Fld.ofInt (Py.Fld.ceil rmax)) st
+      | none => (Py.fdiv rmax (Py.Fld.ofInt (k + 1))).bind fun s => Py.Sh.arange s rmax s := by
+  cases sstep with
+  | some st =>
+    simp only [sholl_get_rs_self_int, sholl_get_rs_self_int.body, Py.seq, Option.isSome_some, if_true, Py.bind, Py.finish]
+    cases Py.Sh.arange st (Py.Fld.ofInt (Py.Fld.ceil rmax)) st <;> rfl
+  | none =>
+    cases h1 : Py.fdiv rmax (Py.Fld.ofInt (k + 1) : K) with
+    | none => simp [sholl_get_rs_self_int, sholl_get_rs_self_int.body, sholl_get_rs_int, sholl_get_rs_int.body, Py.seq, Py.skip, Py.bind, Py.finish, h1]
+    | some s =>
+      cases h : Py.Sh.arange s rmax s <;>
+        simp [sholl_get_rs_self_int, sholl_get_rs_self_int.body, sholl_get_rs_int, sholl_get_rs_int.body, Py.seq, Py.skip, Py.bind, Py.finish, h1, h]
+
 end RefineSholl
